@@ -321,9 +321,15 @@ def _rejection(ctx, m, t, kw, exc, label, script, n):
     case = {'script': script, 'n': n, 't': t, 'rejection': label, 'kwargs': kw}
     ctx.evaluation((script, n, t, label), nontrivial=True)
     res = {}
+    by_label = 0 <= t < n and ctx.counters.get("rejections_checked", 0) % 3 == 0
+    if by_label:
+        # the same request by label, with an unrelated option spelled out next to it
+        kw = dict(kw, failures=['ignore', 'raise'][ctx.counters.get("rejections_checked", 0) // 3 % 2])
+        case['entry'] = 'solve_period'
+        case['kwargs'] = kw
     with ref.quiet():
         try:
-            res['ret'] = m.solve_t(t, **kw)
+            res['ret'] = m.solve_period(list(m.span)[t], **kw) if by_label else m.solve_t(t, **kw)
         except Exception as e:
             res['exc'] = e
     m.__dict__['v_log'].enabled = False
